@@ -46,8 +46,22 @@ def reference(h: H.History, real_out):
         prev_obs = H.observe(SSPOR(basis=models.make_basis(h.basis, h.n_modes), optimizer=H.make_optimizer(h.opt), n_sensors=h.ctor_ns))
     except Exception:
         prev_obs = None
+    basis_data = None          # what the basis OBJECT was last fitted on (by the model or behind its back)
+    stale = False              # the basis was fitted behind the model's back and the model has not re-ranked since
     for op_index, (op, (status, obs)) in enumerate(zip(h.ops, real_out)):
         ok = status == "ok"
+        if op[0] == "copy":
+            if not ok:
+                return None
+            prev_obs = obs
+            continue
+        if op[0] == "bfit":
+            if not ok:
+                return None          # a rejected outside fit may leave the basis half-refitted: state is not claimed
+            basis_data = h.datasets[op[1]]
+            stale = True
+            prev_obs = obs
+            continue
         if not ok and op[0] in ("fit", "upd") and prev_obs is not None and any(
                 obs[k] != prev_obs[k] for k in ("bm", "bnm", "snm", "rank", "ns")):
             # a *rejected* call that nevertheless changed the object (C19's business): no C15 claim afterwards
@@ -57,8 +71,10 @@ def reference(h: H.History, real_out):
             _, di, prefit, seed = op
             if ok:
                 if not prefit:
-                    final_data = h.datasets[di]
+                    basis_data = h.datasets[di]
                     basis_fitted = True
+                final_data = basis_data
+                stale = False
                 last_fit_ok = True
             else:
                 last_fit_ok = False
@@ -72,11 +88,13 @@ def reference(h: H.History, real_out):
                 if di is not None and obs["bnm"] == int(v) and (obs["bm"] is not None) and obs["bm"][0] == h.datasets[di].shape[1] \
                         and _path3(h, op_index, real_out):
                     nm_setting = int(v)
-                    final_data = h.datasets[di]
+                    basis_data = h.datasets[di]
+                final_data = basis_data
+                stale = False
                 last_fit_ok = True
             else:
                 pass
-    if final_data is None or not last_fit_ok:
+    if final_data is None or not last_fit_ok or stale:
         return None
     b = models.make_basis(h.basis, nm_setting)
     try:
@@ -199,6 +217,8 @@ def _identity_freeze(h, out):
             nes.add(h.datasets[op[1]].shape[0])
         if op[0] == "upd" and op[2] is not None:
             nes.add(h.datasets[op[2]].shape[0])
+        if op[0] == "bfit":
+            nes.add(h.datasets[op[1]].shape[0])
     return len(nes) >= 2
 
 
@@ -301,13 +321,30 @@ def run(ctx: C.Ctx):
         judge(ctx, h, f)
         hs.append((f, h))
     for idx in range(ctx.scale(220, 3000)):
-        h = H.gen_history(rng, max_ops=ctx.scale(8, 20), same_shape=rng.random() < 0.3, allow_invalid=rng.random() < 0.5)
+        # in part of the histories the basis object is also fitted behind the model's back (the prefit workflow, a shared basis) and the
+        # model goes through pickle / copy: the next re-ranking must still be that of a fresh model on the basis as it then is
+        wide = rng.random() < 0.4
+        h = H.gen_history(rng, max_ops=ctx.scale(8, 20), same_shape=rng.random() < 0.3, allow_invalid=rng.random() < 0.5,
+                          kinds=("fit", "set", "upd", "upd", "bfit", "copy") if wide else ("fit", "set", "upd"),
+                          repeat_bias=0.5 if wide else 0.0)
         ctx.evaluations += 1
         ctx.count(f"{h.basis}/{h.opt}")
+        for op in h.ops:
+            if op[0] in ("bfit", "copy"):
+                ctx.count("op:" + op[0])
         judge(ctx, h, idx)
         hs.append((idx, h))
         ctx.sample({"basis": h.basis, "n_modes": h.n_modes, "opt": h.opt, "shapes": [list(d.shape) for d in h.datasets],
                     "ops": h.describe()["ops"]}, limit=4)
+    # mode sweeps across a basis refit that happens OUTSIDE the model (basis.fit on other data – the documented prefit workflow, or a
+    # second model sharing the basis object), then the same sweep again: every visit of a mode count ranks the basis as it is then
+    for idx in range(ctx.scale(60, 600)):
+        h = H.gen_sweep_history(rng)
+        basis = h.basis
+        ctx.evaluations += 1
+        ctx.count("mode_sweep_across_outside_basis_refit:" + basis)
+        judge(ctx, h, 2 * 10 ** 6 + idx)
+        hs.append((2 * 10 ** 6 + idx, h))
     # short refit histories on re-recorded data of the same shape but another storage type (integers, then floats with
     # fractions; single, then double precision): nothing of the earlier fit – not even its dtype – may survive
     for idx in range(ctx.scale(40, 400)):
@@ -325,7 +362,14 @@ def run(ctx: C.Ctx):
         ctx.count("dtype_switch_refit:" + h.basis)
         judge(ctx, h, 10 ** 6 + idx)
         hs.append((10 ** 6 + idx, h))
-    machine_compare(ctx, hs, "C15")
+    def search(idx, h, i):
+        # the model and the real object part ways at call i: judge the state right after it (and after one more re-ranking) against
+        # the from-scratch reference
+        for extra in ([], [("fit", 0, True, 0)]):
+            h2 = H.History(h.basis, h.n_modes, h.ctor_ns, h.opt, h.datasets, list(h.ops[: i + 1]) + extra)
+            judge(ctx, h2, idx)
+
+    machine_compare(ctx, hs, "C15", search=search)
     optimizer_refits(ctx, ctx.scale(150, 2000))
 
 
